@@ -78,8 +78,10 @@ def run(rep: Report, ctx: Any) -> str:
     # ---- R03.1 -------------------------------------------------------------------------------------------------------
     sites = {}
     for e in ji.emissions.values():
+        # wire names of parameters: `<x>.name` where x is a macro parameter named property / parameter or the (canonical) variable of
+        # a loop over one of the endpoint's parameter collections
         if e.template in ("endpoint_macros.py.jinja", "property_templates/helpers.jinja") and e.hole.endswith(".name") and \
-                ("parameter" in e.hole or "property" in e.hole):
+                re.fullmatch(r"(property|parameter|endpoint\.\w*parameters(\(\))?\[\*\]|\(endpoint\.list_all_parameters\(\)\)\[\*\])\.name", e.hole):
             sites.setdefault((e.template, e.macro, e.hole), set()).add(e.kind)
     rep.floor("wire_name_sites", len(sites), 3)
     for (tn, mn, hole), kinds in sorted(sites.items()):
@@ -91,8 +93,10 @@ def run(rep: Report, ctx: Any) -> str:
                   where=f"{PKG}/templates/{em.name}")
     hp = em.macros.get("header_params")
     rep.require(hp, "header_params")
-    stm = [a for a in hp.find_all(nodes.Assign) if isinstance(a.target, nodes.Name) and a.target.name == "statement"]
-    rep.check(bool(stm) and "parameter.name" in expr_text(stm[0].node) and "'headers[\"'" in expr_text(stm[0].node), "R03.1",
+    # the statement handed to guarded_statement (third argument), whatever the template calls it: the text of its definition
+    gcalls = [c for c in hp.find_all(nodes.Call) if expr_text(c.node) == "guarded_statement" and len(c.args) >= 3]
+    stm_txt = " ".join(expr_text(c.args[2]) for c in gcalls)
+    rep.check(bool(gcalls) and "endpoint.header_parameters[*].name" in stm_txt and "'headers[\"'" in stm_txt, "R03.1",
               "endpoint_macros.py.jinja::header_params::keyed-by-wire-name", "headers are not keyed by the wire name", where=f"{PKG}/templates/{em.name}")
     sp = ix.func("Endpoint.sort_parameters")
     # the loop variable may have any name: the rewrite is `endpoint.path.replace("{<p>.name}", "{<p>.python_name}")` inside a loop
@@ -105,7 +109,7 @@ def run(rep: Report, ctx: Any) -> str:
     rep.check(bool(rewrites), "R03.1", "Endpoint.sort_parameters::placeholder-rewrite",
               "path placeholders are not rewritten from name to python_name over path_parameters", where(sp, sp.node))
     fmt_loops = [f for f in et.tree.find_all(nodes.For) if expr_text(f.iter) == "endpoint.path_parameters"]
-    ok = any("parameter.python_name" in " ".join(expr_text(c) for o in f.find_all(nodes.Output) for c in o.nodes if not isinstance(c, nodes.TemplateData))
+    ok = any("endpoint.path_parameters[*].python_name" in " ".join(expr_text(c) for o in f.find_all(nodes.Output) for c in o.nodes if not isinstance(c, nodes.TemplateData))
              for f in fmt_loops)
     rep.check(ok, "R03.1", "endpoint_module.py.jinja::format-over-path-parameters", ".format(...) keywords are not python_name over endpoint.path_parameters",
               where=f"{PKG}/templates/{et.name}")
@@ -178,10 +182,12 @@ def run(rep: Report, ctx: Any) -> str:
         assigned |= {norm(x) for x in bl.values_of(v.id)} if isinstance(v, ast.Name) else {norm(v)}
     rep.check(assigned == {f"BodyType.{k}" for k in members}, "R03.3", "body_from_data::assigns-every-member",
               f"media type branches assign {sorted(assigned)}", where(bfd, bfd.node), lhs=sorted(assigned), rhs=sorted(f"BodyType.{k}" for k in members))
-    kw = [f for f in tplq.frags(et.tree.body) if f.kind == "expr" and f.text == "body.body_type.value"]
+    # `body` is either the variable of the loop over endpoint.bodies or a local bound to endpoint.bodies[0] (canonical spellings)
+    BODY = ("endpoint.bodies[*]", "(endpoint.bodies[0])", "endpoint.bodies[0]")
+    kw = [f for f in tplq.frags(et.tree.body) if f.kind == "expr" and f.text in {b + ".body_type.value" for b in BODY}]
     rep.check(len(kw) >= 2, "R03.3", "endpoint_module.py.jinja::kwargs-key-is-body-type", "_kwargs is not keyed by body.body_type.value",
               where=f"{PKG}/templates/{et.name}")
-    cts = [f for f in tplq.frags(et.tree.body) if f.kind == "expr" and f.text == "body.content_type"]
+    cts = [f for f in tplq.frags(et.tree.body) if f.kind == "expr" and f.text in {b + ".content_type" for b in BODY}]
     rep.check(len(cts) >= 2, "R03.3", "endpoint_module.py.jinja::content-type-from-body", "Content-Type is not taken from body.content_type",
               where=f"{PKG}/templates/{et.name}")
     single = [f for f in cts if any(("eq 1" in g or "== 1" in g) for g, p in f.guards if p)]
